@@ -15,16 +15,18 @@ from vv.core import log  # noqa: E402
 from vv import registry  # noqa: E402
 
 
-def replay_case(prop, path):
-    """Replay one saved case file once per call. Returns (failed: bool, output)."""
+def replay_case(prop, path, no_known=False):
+    """Replay one saved case file once per call. Returns (failed: bool, output).
+    no_known: run without the known-finding exclusions (used to see whether a listed finding still fails)."""
     j = json.load(open(path))
     eng = j.get("engine", "rc")
+    extra = {"VV_KNOWN": ""} if no_known else None
     if eng == "rc":
-        n, out = core.replay_rc(prop, j["harness"], path, times=1)
+        n, out = core.replay_rc(prop, j["harness"], path, times=1, extra_env=extra)
         return n > 0, out
     if eng == "py":
         from vv import pyx
-        ok, msg = pyx.replay(j["harness"], j, core.run_env(prop))
+        ok, msg = pyx.replay(j["harness"], j, core.run_env(prop, extra))
         return (not ok), msg
     if eng == "fz":
         r = subprocess.run([f"{core.HB}/{j['harness']}", j["artifact"]], stdout=subprocess.PIPE, stderr=subprocess.STDOUT,
@@ -156,7 +158,7 @@ def main():
         log(f"DEV-KNOWN (VV_KNOWN_EXTRA): property={prop} key={k}")
     for k in known:
         path = os.path.join(core.VERIF, k["replay"])
-        still = replay_case(prop, path)[0] if os.path.exists(path) else (k["key"] in known_hits)
+        still = replay_case(prop, path, no_known=True)[0] if os.path.exists(path) else (k["key"] in known_hits)
         if still or k["key"] in known_hits:
             log(f"KNOWN-FINDING: property={prop} {k['what']}")
 
